@@ -1,23 +1,50 @@
 #!/usr/bin/env python3
-# usage: verify_seeded.py [--budget S] [--par N] [--workers W] [ids...]
-# Re-runs every seeded change (or the given ids) through its property's quick check in scratch worktrees
-# (short shrink budget) and prints one line per change: id, exit code (1 = caught), first violation classes.
-import argparse, os, re, subprocess, sys
+# usage: verify_seeded.py [--budget S] [--par N] [--workers W] [--update] [ids...]
+# Re-runs every seeded change (or the given ids) through the quick check(s) of the properties named in its
+# meta.json "checks" (default: the property of its id) in scratch worktrees, with a short shrink budget.
+# Prints one line per change and writes seeded/RESULTS.json; --update also rewrites caught_by_check /
+# check_result in the meta.json files.
+import argparse, json, os, re, subprocess, sys
 from concurrent.futures import ThreadPoolExecutor
 ap = argparse.ArgumentParser()
 ap.add_argument("--budget", default="25"); ap.add_argument("--par", type=int, default=3); ap.add_argument("--workers", default="5")
-ap.add_argument("ids", nargs="*")
+ap.add_argument("--update", action="store_true"); ap.add_argument("ids", nargs="*")
 a = ap.parse_args()
-ids = a.ids or sorted(os.listdir("/verif/seeded"))
+ids = a.ids or sorted(d for d in os.listdir("/verif/seeded") if os.path.isdir("/verif/seeded/" + d))
 def one(i):
-    d = "/verif/seeded/" + i; prop = i.split("-")[0]
+    d = "/verif/seeded/" + i
+    meta = json.load(open(d + "/meta.json"))
     p = d + "/patch_rebased.diff" if os.path.exists(d + "/patch_rebased.diff") else d + "/patch.diff"
     env = dict(os.environ, VERIF_SHRINK_S="4", VERIF_WORKERS=a.workers)
-    out = subprocess.run(["/verif/mutant_wt.sh", p, prop, a.budget], env=env, stdout=subprocess.PIPE, stderr=subprocess.STDOUT, text=True).stdout
-    rc = re.findall(r"^mutant_wt exit=(\d+)", out, re.M)
-    cls = re.findall(r"^violation class: (.*)", out, re.M)[:3]
-    line = "%s rc=%s %s" % (i, rc[0] if rc else "?", " ".join(cls))
-    print(line, flush=True)
-    return line
+    res = {"id": i, "caught": False, "by": []}
+    for prop in meta.get("checks") or [i.split("-")[0]]:
+        out = subprocess.run(["/verif/mutant_wt.sh", p, prop, a.budget], env=env, stdout=subprocess.PIPE, stderr=subprocess.STDOUT, text=True).stdout
+        rc = re.findall(r"^mutant_wt exit=(\d+)", out, re.M)
+        cls = re.findall(r"^violation class: (.*)", out, re.M)[:3]
+        runs = re.findall(r"VIOLATION property=\S+ replay=\S+-(\d+)\.json", out)[:3]
+        res["by"].append({"check": prop, "rc": rc[0] if rc else "?", "classes": cls, "runs": runs})
+        if rc and rc[0] == "1":
+            res["caught"] = True
+            break
+    print(i, "CAUGHT" if res["caught"] else "missed", json.dumps(res["by"]), flush=True)
+    return res
 with ThreadPoolExecutor(a.par) as ex:
-    list(ex.map(one, ids))
+    results = list(ex.map(one, ids))
+old = {}
+if os.path.exists("/verif/seeded/RESULTS.json"):
+    old = {r["id"]: r for r in json.load(open("/verif/seeded/RESULTS.json"))}
+for r in results:
+    old[r["id"]] = r
+json.dump([old[k] for k in sorted(old)], open("/verif/seeded/RESULTS.json", "w"), indent=1)
+if a.update:
+    for r in results:
+        mp = "/verif/seeded/%s/meta.json" % r["id"]
+        m = json.load(open(mp))
+        if r["caught"]:
+            b = r["by"][-1]
+            m["caught_by_check"] = "yes"
+            m["check_result"] = "%s: %s at run %s (quick seed, %s workers)" % (b["check"], ", ".join(b["classes"]), "/".join(b["runs"]), a.workers)
+        elif m.get("caught_by_check") in ("?", None):
+            m["caught_by_check"] = "no"; m["check_result"] = "not reported by " + ", ".join(x["check"] for x in r["by"])
+        json.dump(m, open(mp, "w"), indent=1)
+print(sum(r["caught"] for r in results), "of", len(results), "caught")
